@@ -3,6 +3,7 @@ package main
 import (
 	"fmt"
 	"go/token"
+	"go/types"
 
 	"golang.org/x/tools/go/ssa"
 )
@@ -250,6 +251,9 @@ func checkUpdateHook(c *Ctx, rule string, parts ...string) {
 	}
 	if want["pump"] {
 		checkStatePump(c, rule)
+		checkConsumerStarted(c, rule)
+		checkCallbackSetters(c, rule, "game", 5)
+		checkCallbackSetters(c, rule, "tableEngine", 5)
 	}
 }
 
@@ -331,4 +335,185 @@ func checkStatePump(c *Ctx, rule string) {
 		}
 	}
 	c.Check(okEvery, rule, "state-pump:hook-after-every-known-event", p.Pos(disp.Pos()), "every dispatch of a known event ends in the engine hook", "a dispatched state with a known event can bypass the engine hook")
+}
+
+// checkCallbackSetters: every On<X>(fn) method of the type stores fn into the field on<X>
+// (so a callback registered under one name is not delivered under another, or dropped).
+func checkCallbackSetters(c *Ctx, rule string, typeName string, min int) {
+	p := c.P
+	n := 0
+	for _, f := range p.Funcs {
+		if f.Signature.Recv() == nil || f.Parent() != nil || len(f.Params) != 2 || len(f.Name()) < 3 || f.Name()[:2] != "On" {
+			continue
+		}
+		nt := namedOf(f.Signature.Recv().Type())
+		if nt == nil || nt.Obj().Name() != typeName || !p.IsRepoFunc(f) {
+			continue
+		}
+		if _, isFn := f.Params[1].Type().Underlying().(*types.Signature); !isFn {
+			continue
+		}
+		n++
+		want := "on" + f.Name()[2:]
+		ok, d, k := true, "", 0
+		for _, ss := range p.Stores([]*ssa.Function{f}) {
+			if ss.Owner != typeName {
+				continue
+			}
+			k++
+			if ss.Field != want {
+				ok, d = false, "stores the callback into "+ss.Field
+			} else if !symIsParam(ss.Val, f.Params[1]) {
+				ok, d = false, "stores "+ss.Val.String()+" instead of the callback given"
+			}
+		}
+		if k == 0 {
+			ok, d = false, "does not keep the callback"
+		}
+		c.Check(ok, rule, "setter:"+typeName+"."+f.Name(), p.Pos(f.Pos()), want+" ← the callback given", typeName+"."+f.Name()+" "+d)
+	}
+	c.Min(rule, "callback setters of "+typeName, n, min)
+}
+
+// checkConsumerStarted: the hand's Start launches the queue consumer before asking the
+// backend for the hand; the dispatcher calls the looked-up handler exactly when one exists.
+func checkConsumerStarted(c *Ctx, rule string) {
+	p := c.P
+	gameT := p.singleImpl("", "Game")
+	if gameT == nil {
+		return
+	}
+	start := p.Method(gameT, "Start")
+	disp := p.Method(gameT, "handleGameState")
+	if start == nil || disp == nil {
+		c.Bad(rule, "consumer-started", "-", "Start / dispatcher not found")
+		return
+	}
+	// a callee of Start that spawns a goroutine whose closure calls the dispatcher
+	var spawn ssa.CallInstruction
+	for _, ci := range Calls(start) {
+		sc := ci.Common().StaticCallee()
+		if sc == nil || !p.IsRepoFunc(sc) {
+			continue
+		}
+		for _, c2 := range Calls(sc) {
+			if _, isGo := c2.(*ssa.Go); !isGo {
+				continue
+			}
+			for _, cl := range closureOperands(c2.Common().Value) {
+				for _, c3 := range Calls(cl) {
+					if c3.Common().StaticCallee() == disp {
+						spawn = ci
+					}
+				}
+			}
+		}
+	}
+	var create ssa.CallInstruction
+	for _, ci := range Calls(start) {
+		if calleeName(ci.Common()) == "GameBackend.CreateGame" {
+			create = ci
+		}
+	}
+	c.Check(spawn != nil && create != nil && Dominates(spawn, create), rule, "consumer-started", p.Pos(start.Pos()), "queue consumer launched before the hand is created", "the hand's Start does not launch the consumer of the state queue before creating the hand: no state would ever be dispatched")
+	// dispatcher: handler invoked iff found
+	for _, ci := range Calls(disp) {
+		cm := ci.Common()
+		if cm.IsInvoke() || cm.StaticCallee() != nil {
+			continue
+		}
+		s := p.Sym(cm.Value).Strip()
+		if s.Kind == "extract" && s.Args[0].Strip().Kind == "lookup" {
+			found := false
+			for _, g := range p.Guards(ci) {
+				if x := g.Cond.Strip(); x.Kind == "extract" && x.Name == "1" && x.Args[0].Strip().String() == s.Args[0].Strip().String() && g.Val {
+					found = true
+				}
+			}
+			lk := s.Args[0].Strip()
+			keyOK := lk.Args[1].Strip().Kind == "extract" // the event looked up from the state's symbol
+			c.Check(found && keyOK && symIsParam(p.Sym(cm.Args[0]), disp.Params[1]), rule, "dispatch:handler-when-found", p.InstrPos(ci), "handler(gs) exactly when the event has one", "the dispatcher calls the looked-up handler when none was found (or not with the dispatched state)")
+		}
+	}
+	for _, b := range disp.Blocks {
+		for _, in := range b.Instrs {
+			if lk, isLk := in.(*ssa.Lookup); isLk && lk.CommaOk && typeShort(lk.X.Type()) != "map[pokerface.GameEvent]func(*pokerface.GameState)" {
+				k := p.Sym(lk.Index).Strip()
+				if k.Kind == "field" {
+					c.Check(k.IsField("Status", "CurrentEvent") && symIsParam(k.Args[0].Strip().Args[0], disp.Params[1]), rule, "dispatch:event-of-that-state", p.InstrPos(lk), "event = gs.Status.CurrentEvent", "the dispatcher derives the event from "+k.String())
+				}
+			}
+		}
+	}
+}
+
+// checkPayRouting (C11.R5 part): a pay is turned into a ready-group signal exactly while the
+// hand is collecting antes or blinds (event of the hand's own current state), and goes to the
+// backend otherwise.
+func checkPayRouting(c *Ctx, rule string) {
+	p := c.P
+	gameT := p.singleImpl("", "Game")
+	if gameT == nil {
+		return
+	}
+	pay := p.Method(gameT, "Pay")
+	if pay == nil {
+		c.Bad(rule, "pay-routing", "-", "hand-side Pay not found")
+		return
+	}
+	ante, blinds := gameEventConst(p, "GameEvent_AnteRequested"), gameEventConst(p, "GameEvent_BlindsRequested")
+	isSignal := func(in ssa.Instruction) bool {
+		ci, ok := in.(ssa.CallInstruction)
+		return ok && calleeName(ci.Common()) == "syncsaga.ReadyGroup.Ready"
+	}
+	isBackend := func(in ssa.Instruction) bool {
+		ci, ok := in.(ssa.CallInstruction)
+		return ok && calleeName(ci.Common()) == "GameBackend.Pay"
+	}
+	d, n := "", 0
+	classify := func(gs []Guard) (collecting, other, known bool) {
+		for _, g := range gs {
+			if cm := g.AsCmp(); cm != nil {
+				if z, isZ := cm.R.ConstInt(); isZ && cm.L.Strip().Kind == "extract" && (z == ante || z == blinds) {
+					if cm.Op == token.EQL {
+						collecting = true
+					}
+				}
+			}
+			if s := g.Cond.Strip(); s.Kind == "extract" && s.Name == "1" && s.Args[0].Strip().Kind == "lookup" {
+				k := s.Args[0].Strip().Args[1].Strip()
+				if g.Val && k.IsField("Status", "CurrentEvent") && k.Args[0].Strip().Args[0].Strip().IsField("game", "gs") {
+					known = true
+				}
+			}
+		}
+		// "other": both collecting events excluded
+		nA, nB := false, false
+		for _, g := range gs {
+			if cm := g.AsCmp(); cm != nil && cm.Op == token.NEQ {
+				if z, isZ := cm.R.ConstInt(); isZ && z == ante {
+					nA = true
+				}
+				if z, isZ := cm.R.ConstInt(); isZ && z == blinds {
+					nB = true
+				}
+			}
+		}
+		other = nA && nB
+		return
+	}
+	wk := &Walker{P: p, Fn: pay, IsEvent: func(in ssa.Instruction) bool { return isSignal(in) || isBackend(in) }, OnEvent: func(in ssa.Instruction, st *WState) {
+		n++
+		col, oth, known := classify(st.PathGuards(p))
+		switch {
+		case !known:
+			d = "a pay is routed without the current event of the hand's own state being a known event"
+		case isSignal(in) && !col:
+			d = "a pay is turned into a ready-group signal outside the ante / blinds collection"
+		case isBackend(in) && !oth:
+			d = "a pay goes to the backend while antes or blinds are being collected"
+		}
+	}}
+	wk.Run()
+	c.Check(d == "" && n >= 2 && !wk.Aborted, rule, "pay-routing", p.Pos(pay.Pos()), "signal ⇔ ante/blinds collection; backend otherwise", "pay routing: "+d)
 }
